@@ -349,17 +349,29 @@ step_count = 2 > 1*2 − 1 (such a step is after LAST in the real environment) -
 example : Consistent ⟨1, 2, 1, 1, 0, 0⟩ ⟨[[1, -1]], 1, [1]⟩ ∧ isSolved ⟨[[1, -1]], 1, [1]⟩ = true ∧
     (step ⟨1, 2, 1, 1, 0, 0⟩ ⟨[[1, -1]], 1, [1]⟩ 0 1).2.obs.stepCount = 2 := by decide
 
+/-! NOTE on what the membership theorems of this section do and do not cover (audits r4 #6, r5 #6, r6 #8): the dtype tag of every leaf
+is written by `toNValue` (by construction) — a wrong dtype in the real code cannot falsify `….valid (toNValue …) = true`; dtypes and
+field order of the real observations are compared by the `minesweeper.spec` / `minesweeper.state` ops (`nvalue`: field order, shape, dtype, data) and
+`jax.eval_shape` in the sweeps.  Shapes are READ OFF the value by `toNValue` (widths off the first row): see `…_obs_valid_only`. -/
+
 /-! #### (wave 3) membership in the DECLARED specs: structure, shapes, dtypes and bounds -/
 open Sp PzS PzS3
 
 /-- the model's `obsSpec` / `actionSpec` / reward and discount specs ARE the specs generated from the real spec objects
-(Gen/Specs.lean) for the catalogue configuration of Minesweeper (5 × 6 board, 4 mines) -/
+(Gen/Specs.lean) for the catalogue configuration of Minesweeper (5 × 6 board, 4 mines)
+SPEC-ONLY second configuration (3 × 4 board, 5 mines: rows, columns and mines pairwise distinct; `num_mines ≤ R·C − 1 = 11`,
+`step_count ≤ R·C − mines = 7`), so that a spec with two parameters exchanged fails -/
 theorem minesweeper_obsSpec_generated :
     prefixed "observation_spec." (obsSpec ⟨5, 6, 4, 1, 0, 0⟩) = declared "minesweeper-5x6" "observation_spec." ∧
     [("action_spec", actionSpec ⟨5, 6, 4, 1, 0, 0⟩)] = declared "minesweeper-5x6" "action_spec" ∧
     [("reward_spec", PzS.rewardSpec)] = declared "minesweeper-5x6" "reward_spec" ∧
-    [("discount_spec", discountSpec)] = declared "minesweeper-5x6" "discount_spec" := by
-  refine ⟨by decide, by decide, by decide, by decide⟩
+    [("discount_spec", discountSpec)] = declared "minesweeper-5x6" "discount_spec" ∧
+    prefixed "observation_spec." (obsSpec ⟨3, 4, 5, 1, 0, 0⟩) = declared "spec-only-minesweeper-3x4x5" "observation_spec." ∧
+    [("action_spec", actionSpec ⟨3, 4, 5, 1, 0, 0⟩)] = declared "spec-only-minesweeper-3x4x5" "action_spec" ∧
+    [("reward_spec", PzS.rewardSpec)] = declared "spec-only-minesweeper-3x4x5" "reward_spec" ∧
+    [("discount_spec", discountSpec)] = declared "spec-only-minesweeper-3x4x5" "discount_spec" := by
+  refine ⟨by decide +kernel, by decide +kernel, by decide +kernel, by decide +kernel, by decide +kernel, by decide +kernel,
+    by decide +kernel, by decide +kernel⟩
 
 /-- the `reset` observation of the TRANSLITERATED generator — all sizes, every valid draw of the mine locations; the
 generator's constructor refuses `num_mines ≥ rows·cols` — is accepted by `observation_spec.validate`: fields `board`,
@@ -386,7 +398,10 @@ theorem minesweeper_episode_obs_valid (cfg : Cfg) (d : List Nat) (hd : validDraw
   Minesweeper.episode_obs_valid cfg d hd hM as hin hrun r c hr hc
 
 /-- what membership means: `validate` accepts ONLY observations of shape `(R, C)` with cells in [−1, 8], `num_mines` in
-[0, R·C − 1] and `step_count` in [0, R·C − num_mines] -/
+[0, R·C − 1] and `step_count` in [0, R·C − num_mines]  CAVEAT (audits r4 #7, r5 #5, r6 #5): for every field that is a nested list, `toNValue` reads the widths off the FIRST row of the
+nested list, so the shape conjuncts here mean "row count, length of the first row, total number of cells" — a ragged value with the right total can be a
+member, and nothing is concluded about the later rows.  Rectangularity is part of the invariant (`SpecInv` / `Shaped` / `Rect…`) under which the
+forward theorems (`…_reset_obs_valid`, `…_step_obs_valid`, `…_along`) are proved, i.e. it holds of every EMITTED observation. -/
 theorem minesweeper_obs_valid_only (cfg : Cfg) (o : Obs) (h : (obsSpec cfg).valid (toNValue o) = true) :
     gridShape o.board = [cfg.numRows, cfg.numCols] ∧ gridShape o.mask = [cfg.numRows, cfg.numCols] ∧
     (∀ v ∈ List.flatten o.board, -1 ≤ v ∧ v ≤ 8) ∧
@@ -421,4 +436,14 @@ theorem minesweeper_accepts_generate_value (cfg : Cfg) (hR : 0 < cfg.numRows) (h
     (actionSpec cfg).WF = true ∧ (actionSpec cfg).valid (actionSpec cfg).generate = true ∧
     (actionSpec cfg).generate = actionArr 0 0 ∧ StepOK none false (step cfg s 0 0).2 = true :=
   Minesweeper.accepts_generate_value cfg hR hC hbig s
+
+/-- … with the observation membership stated, not only referred to (audit r4 #8): from every `Consistent`, not yet solved state the
+answer to `generate_value()` = (0, 0) is protocol-conform AND its observation is a member of `observation_spec` -/
+theorem minesweeper_accepts_generate_value' (cfg : Cfg) (hR : 0 < cfg.numRows) (hC : 0 < cfg.numCols)
+    (hbig : cfg.numRows ≤ 2147483648 ∧ cfg.numCols ≤ 2147483648) (hM : cfg.numMines < cells cfg)
+    (s : State) (hcs : Consistent cfg s) (hns : isSolved s = false) :
+    (actionSpec cfg).valid (actionSpec cfg).generate = true ∧ (actionSpec cfg).generate = actionArr 0 0 ∧
+    StepOK none false (step cfg s 0 0).2 = true ∧ (obsSpec cfg).valid (toNValue (step cfg s 0 0).2.obs) = true := by
+  obtain ⟨_, h2, h3, h4⟩ := minesweeper_accepts_generate_value cfg hR hC hbig s
+  exact ⟨h2, h3, h4, minesweeper_step_obs_valid cfg s hcs 0 0 hR hC hns hM⟩
 end Props.C01
